@@ -23,8 +23,9 @@ RULE = (
 ASSUMPTIONS = [
     "PyTorch kernels (linear, softmax, masked_fill, index_select, expand) are trusted",
     "USE_JIT off: the modules run as plain Python; scripted/traced modules are not monitored",
-    "float tolerances relative to max(1,|reference|): 1e-6 (blindness), 2e-5 (permutation, broadcasting, "
-    "head-by-head reference, range) in float32; 1e-12 / 1e-10 in float64; score scales > 1 only in float64",
+    "float tolerances relative to max(1,|reference|): float32 1e-6 (blindness, single kept position), 2e-5 (range), "
+    "2e-4 (permutation, broadcasting, head-by-head reference: re-associated sums feeding a softmax); float64 "
+    "1e-12 / 1e-10 / 1e-10; score scales > 1 only in float64",
     "the head-by-head reference calls the real single-head module per head; the single-head flavours are "
     "judged by the range/blindness/permutation/broadcasting clauses of the same run",
 ]
@@ -319,9 +320,12 @@ class _Soft:
 
 
 def _tols(case):
+    """(exact-type relations, re-associated sums, range) relative to max(1, |reference|)"""
     if case["dtype"] == "float64":
-        return 1e-12, 1e-10
-    return 1e-6, 2e-5
+        return 1e-12, 1e-10, 1e-10
+    # float32: scores of magnitude ~10-100 carry ~1e-5 relative weight error after a re-associated
+    # projection (largest seen over 2 x 96000 thorough cases: 1.5e-5); float64 cases give the sharp check
+    return 1e-6, 2e-4, 2e-5
 
 
 def _cmp(mon, monitor, got, want, c, dtype, **details):
@@ -407,7 +411,7 @@ def execute(case, mon):
     multi = fl == "mh"
     pos = case["pos"]
     dtype = case["dtype"]
-    c_eq, c_sum = _tols(case)
+    c_eq, c_sum, c_rng = _tols(case)
     T = k.shape[pos]
     n = k.dim()
     soft = _Soft(mon)
@@ -496,10 +500,10 @@ def execute(case, mon):
                 a = dict(zip(names, args))
                 a.update(kwargs)
                 soft.run(_range_check, mon, "inner-range", o, a["query"], a["key"], a["value"], a.get("mask"),
-                         pos, c_sum, dtype)
+                         pos, c_rng, dtype)
         else:
             # ---- 1. range
-            r = soft.run(_range_check, mon, "range", out, q, k, v, mask, pos, c_sum, dtype)
+            r = soft.run(_range_check, mon, "range", out, q, k, v, mask, pos, c_rng, dtype)
             if case["class"] == "single_kept" and r is not None:
                 soft.run(_cmp, mon, "single-kept-exact", out, r[0], c_eq, dtype)
 
@@ -621,5 +625,5 @@ def hook_compare(case, output, mon):
     mod, q, k, v, mask, _ = _materialise(case)
     with torch.no_grad():
         again = _call(mon, mod, q, k, v, mask)
-    c_eq, c_sum = _tols(case)
+    c_eq, c_sum, c_rng = _tols(case)
     _cmp(mon, "observed-output", output.detach(), again, c_sum, case["dtype"])
